@@ -2849,4 +2849,53 @@ theorem functorCall_json (s : Sig) (hwf : s.wf = true) (F : Functor) (n : Named)
   rw [fill_congr_orElse (fun p hp => hget p (List.mem_append_left _ hp)),
       fill_congr_orElse (fun p hp => hget p (List.mem_append_right _ hp)), hva]
 
+
+
+theorem bindKw_err_of_unknown (s : Sig) (kws : KW) (n : Named) (hv : s.varkw = none)
+    (h : ∃ p ∈ kws, s.names.contains p.1 = false) : ∃ e, bindKw s kws n = .error e := by
+  induction kws generalizing n with
+  | nil => obtain ⟨p, hp, _⟩ := h; cases hp
+  | cons q r ih =>
+    obtain ⟨k, v⟩ := q
+    simp only [bindKw, hv, Option.isSome_none, Bool.false_eq_true, if_false]
+    cases hn : s.names.contains k with
+    | false => exact ⟨_, rfl⟩
+    | true =>
+      simp only [if_true]
+      split
+      · exact ⟨_, rfl⟩
+      · obtain ⟨p, hp, hpn⟩ := h
+        rcases List.mem_cons.1 hp with rfl | hp
+        · rw [hn] at hpn; cases hpn
+        · exact ih _ ⟨p, hp, hpn⟩
+
+/-- Without `**kwargs`, a call-time keyword that is not a parameter name — in particular one named
+like the `*args` parameter — is refused by the functor exactly as by the plain function. -/
+theorem functorCall_unknown_keyword (s : Sig) (F : Functor) (hsig : F.sig = s) (c : Call) (o? : Option Bool)
+    (hv : s.varkw = none) (hign : F.ignoreExtraArgs = false)
+    (h : ∃ p ∈ c.kwargs, s.names.contains p.1 = false) :
+    functorCall true F c o? none = .error .typeError ∧ pyCall s c = .error .typeError := by
+  constructor
+  · have hpo : parseOverrides true F c o? none = .error .typeError := by
+      unfold parseOverrides
+      simp only [hsig, Option.getD_none, hign]
+      split
+      · rfl
+      · cases hp : posLoop F.specified (o?.getD F.overrideArgs) (s.posNames.zip c.args) F.bound with
+        | error e => cases e; rfl
+        | ok kw1 =>
+          simp only
+          rw [kwLoop_err s _ _ _ false c.kwargs _
+            (by obtain ⟨p, hp, hn⟩ := h
+                exact ⟨p, hp, Or.inr (Or.inl ⟨by simp only [keep, hn, hv, Option.isSome_none, Bool.or_false], rfl⟩)⟩)]
+    unfold functorCall
+    rw [hpo]
+  · rw [pyCall_eq]
+    unfold pyBind nameArgs
+    obtain ⟨e, he⟩ := bindKw_err_of_unknown s c.kwargs ⟨s.posNames.zip c.args, c.args.drop s.pos.length, []⟩ hv h
+    rw [he]; rfl
+
+theorem withOverrides_store {ε α : Type} (st : OvStore) (o t : Nat) (kw : KW) (body : OvStore → Except ε α) :
+    (withOverrides st o t kw body).1 = st := rfl
+
 end Pg.C18
